@@ -217,11 +217,9 @@ class Update(object):
             nlri_hex = cls.construct_prefix_v4(msg_dict['nlri'], addpath)
         if msg_dict.get('withdraw'):
             withdraw_hex = cls.construct_prefix_v4(msg_dict['withdraw'], addpath)
-        if nlri_hex and attr_hex:
-            msg_body = struct.pack('!H', 0) + struct.pack('!H', len(attr_hex)) + attr_hex + nlri_hex
-            return cls.construct_header(msg_body)
-        elif attr_hex and not nlri_hex:
-            msg_body = struct.pack('!H', 0) + struct.pack('!H', len(attr_hex)) + attr_hex + nlri_hex
+        if attr_hex:
+            msg_body = struct.pack('!H', len(withdraw_hex)) + withdraw_hex + \
+                struct.pack('!H', len(attr_hex)) + attr_hex + nlri_hex
             return cls.construct_header(msg_body)
         elif withdraw_hex:
             msg_body = struct.pack('!H', len(withdraw_hex)) + withdraw_hex + struct.pack('!H', 0)
